@@ -13,6 +13,9 @@ B. probe orthogonalisation: M = 1..5 modes x pairwise correlation {0,.5,.9,.99} 
    `probe` property (both after from_array and after the `probe` setter).
 C. probe weighting: M = 1..5 x requested weights {default, equal, skewed} x mean intensity {1e-3,1,1e4} x ROI x source
    {array stack, from_params}, through set_initial_probe / initial_probe.
+D. histories (model-checking style): every ordered pair (thorough: triple) of "configure one instance with one non-default constraint key"
+   events, followed by reading FRESH models of every class with no constraint written; a model must not depend on other models
+   (differential oracle against the empty history, admissibility under the start-up defaults, class-level defaults unchanged).
 """
 from __future__ import annotations
 
@@ -32,7 +35,9 @@ CLAIM = (
     "transmission exp(iV) has modulus one identically); the tomography ObjectVoxelwise is non-negative under positivity; ProbePixelated.probe returns modes whose Gram matrix is diagonal to "
     "1e-4 of the largest intensity, with the same multiset of mode intensities in descending order, for 1..5 modes with pairwise "
     "correlation up to 0.99; set_initial_probe scales the probe so that sum |FFT_ortho|^2 equals the mean intensity with the requested "
-    "mode shares. Exhaustive lattice exploration is the right level: the property quantifies over constraint dictionaries, masks, types "
+    "mode shares; and for every ordered pair (thorough: triple) of events that give ONE instance one non-default constraint key, fresh object, probe "
+    "and tomography models with no constraint written behave bit for bit as if no other instance had ever been configured, are admissible under the "
+    "default constraints, and the class-level default mappings are unchanged. Exhaustive lattice exploration is the right level: the property quantifies over constraint dictionaries, masks, types "
     "and magnitudes where the defects live (flag interactions), and every combination of the stated alphabets is executed."
 )
 NOTE = (
@@ -40,13 +45,14 @@ NOTE = (
     "(amplitude 5e-6, idempotence 1e-5 of the value scale, Gram 1e-4, intensities 1e-5). Points with identical_slices and more than one "
     "slice are only required to tie the slices (quantifier). 'Amplitude' is read literally as the modulus of the object handed to the forward "
     "model, so potential objects (exp(iV), modulus one) are exempt from the idempotence clause; value changes there are counted, not failed. apply_fov_mask (and, through the obj property, fix_potential_baseline on a "
-    "potential object) with no mask set is a usage error that raises and is not a lattice point. Two known findings are reported by class, "
+    "potential object) with no mask set is a usage error that raises and is not a lattice point. The history part trusts the defaults a fresh model reports at start-up (before any event) as the meaning of 'default' and bounds "
+    "histories at two (thorough: three) events of a 42-event alphabet. Two known findings are reported by class, "
     "not hidden: pure_phase with a field-of-view mask below one, and repeated application of a fractional mask."
 )
 RULE = (
     "Cartesian product of the alphabets named in coverage.alphabet. An object point is non-trivial when the constraint has to change the raw "
     "tensor (amplitude above one / not one / negative values / differing slices / a mask below one applied); a probe point when M >= 2; a "
-    "weight point when the requested shares differ from the shares of the input stack. distinct = distinct point descriptors."
+    "weight point when the requested shares differ from the shares of the input stack; a history when it has at least one event. distinct = distinct point descriptors."
 )
 
 MAGS = [0.0, 1e-3, 0.5, 1.0, 1.0 + 1e-6, 3.0, 1e4]
@@ -447,10 +453,288 @@ def w_weights(item, seed=0, nseeded=2):
     return t
 
 
+# ----------------------------------------------------------------------------- D. histories: an instance must not depend on other instances
+# The lattice above writes every constraint key on every model, so it cannot see state shared BETWEEN models. Here the enumerated object is
+# a history: a sequence of "configure one instance" events (a fresh model of some class gets ONE non-default constraint key, through the
+# constraints setter or through add_constraint) followed by an observation: fresh models of every class, with NO constraint written, are read.
+# Oracles: (i) differential - every observed byte equals the observation of the empty history ("no earlier event"); (ii) the fresh models
+# satisfy the admissibility clauses under the DEFAULT constraints, where "default" is what a fresh model reported at start-up, before any
+# event; (iii) the class-level default mappings are unchanged; (iv) models that existed before the events, and the configured models
+# themselves, still report their own constraints. All ordered pairs (thorough: triples) of events are enumerated.
+_SNAP = None  # start-up snapshot, taken in the parent before anything writes a constraint; workers inherit it through fork
+
+OBJ_SETTINGS = [("positivity", False), ("identical_slices", True), ("apply_fov_mask", True), ("fix_potential_baseline", True), ("gaussian_sigma", 1.0)]
+PROBE_SETTINGS = [("orthogonalize_probe", False), ("center_probe", True), ("tv_weight", 0.5)]
+VOXEL_SETTINGS = [("hard", "positivity", True), ("hard", "shrinkage", 0.25), ("soft", "tv_vol", 0.1)]
+ROUTES = ["setter", "add"]
+
+
+def history_events(routes=ROUTES):
+    ev = []
+    for route in routes:
+        ev += [["object", ot, k, v, route] for ot in OBJ_TYPES for k, v in OBJ_SETTINGS]
+        ev += [["probe", k, v, route] for k, v in PROBE_SETTINGS]
+        ev += [["voxel", which, k, v, route] for which, k, v in VOXEL_SETTINGS]
+    return ev
+
+
+def _classes():
+    from quantem.diffractive_imaging.object_models import ObjectPixelated
+    from quantem.diffractive_imaging.probe_models import ProbePixelated
+    from quantem.tomography.object_models import ObjectVoxelwise
+
+    return {"object": ObjectPixelated, "probe": ProbePixelated, "voxel": ObjectVoxelwise}
+
+
+DEFAULT_ATTRS = [("object", "DEFAULT_CONSTRAINTS"), ("probe", "DEFAULT_CONSTRAINTS"), ("voxel", "DEFAULT_HARD_CONSTRAINTS"), ("voxel", "DEFAULT_SOFT_CONSTRAINTS")]
+
+
+def _hist_raw(ot):
+    raw = make_raw(("grid", 1), 2, (5, 6), 0)
+    return raw.real.astype(np.float32) if ot == "potential" else raw.astype(np.complex64)
+
+
+def _hist_mask():
+    return make_mask(("fractional", "ramp"), (5, 6), 0).astype(np.float32)
+
+
+def _new_object(ot, with_mask):
+    cls = _classes()["object"]
+    om = cls.from_array(_hist_raw(ot), slice_thicknesses=2.0, obj_type=ot, rng=101)
+    om.reset()
+    if with_mask:
+        om.mask = _hist_mask()
+    return om
+
+
+def _new_probe():
+    P = make_modes(3, 0.9, (6, 8), "ascending", 0, 0).astype(np.complex64)
+    return _classes()["probe"].from_array(P, probe_params={"energy": 80e3}, rng=102)
+
+
+def _new_voxel():
+    torch = _torch()
+    ov = _classes()["voxel"]((2, 5, 6), "cpu")
+    ov.obj = torch.tensor(make_raw(("grid", 1), 2, (5, 6), 0).real.astype(np.float32))
+    return ov
+
+
+def _read(fn):
+    """Bytes of an output, or the name of the exception the library raised."""
+    torch = _torch()
+    try:
+        with torch.no_grad():
+            return np.ascontiguousarray(fn().detach().numpy())
+    except Exception as e:  # a leaked apply_fov_mask on a model without a mask raises: that is an observation too
+        return "raised " + type(e).__name__
+
+
+def _same(a, b):
+    if isinstance(a, str) or isinstance(b, str):
+        return isinstance(a, str) and isinstance(b, str) and a == b
+    return a.shape == b.shape and a.dtype == b.dtype and a.tobytes() == b.tobytes()
+
+
+def _plain(d):
+    """Constraint dict -> comparable plain structure."""
+    return {str(k): (v if isinstance(v, (bool, int, float, str, type(None))) else repr(v)) for k, v in dict(d).items()}
+
+
+def snapshot_defaults():
+    """Start-up state: what fresh models report as their constraints and deep copies of the class-level default mappings."""
+    global _SNAP
+    if _SNAP is not None:
+        return _SNAP
+    import copy
+
+    cl = _classes()
+    snap = {"class": {}, "fresh": {}}
+    for model, attr in DEFAULT_ATTRS:
+        d = getattr(cl[model], attr, None)
+        snap["class"][model + "." + attr] = None if d is None else copy.deepcopy(dict(d))
+    snap["fresh"]["object"] = _plain(_new_object("complex", False).constraints)
+    snap["fresh"]["probe"] = _plain(_new_probe().constraints)
+    ov = _new_voxel()
+    snap["fresh"]["voxel"] = {"hard": _plain(ov.hard_constraints), "soft": _plain(ov.soft_constraints)}
+    _SNAP = snap
+    return snap
+
+
+def restore_defaults():
+    """Put the class-level default mappings back (in place) so that a leak in one history cannot poison the next."""
+    import copy
+
+    cl = _classes()
+    for model, attr in DEFAULT_ATTRS:
+        want = _SNAP["class"][model + "." + attr]
+        d = getattr(cl[model], attr, None)
+        if want is not None and isinstance(d, dict) and d != want:
+            d.clear()
+            d.update(copy.deepcopy(want))
+
+
+def apply_event(ev):
+    """Configure one new instance; returns (model kind, instance, the constraints it must keep reporting)."""
+    kind = ev[0]
+    if kind == "object":
+        _, ot, k, v, route = ev
+        m = _new_object(ot, with_mask=(k in ("apply_fov_mask", "fix_potential_baseline")))
+        if route == "setter":
+            m.constraints = {k: v}
+        else:
+            m.add_constraint(k, v)
+        _read(lambda: m.obj)
+        return kind, m, dict(_SNAP["fresh"]["object"], **{k: v})
+    if kind == "probe":
+        _, k, v, route = ev
+        m = _new_probe()
+        if route == "setter":
+            m.constraints = {k: v}
+        else:
+            m.add_constraint(k, v)
+        _read(lambda: m.probe)
+        return kind, m, dict(_SNAP["fresh"]["probe"], **{k: v})
+    _, which, k, v, route = ev
+    m = _new_voxel()
+    if route == "setter":
+        setattr(m, which + "_constraints", {k: v})
+    else:
+        getattr(m, f"add_{which}_constraint")(k, v)
+    _read(lambda: m.obj)
+    want = {"hard": dict(_SNAP["fresh"]["voxel"]["hard"]), "soft": dict(_SNAP["fresh"]["voxel"]["soft"])}
+    want[which][k] = v
+    return kind, m, want
+
+
+def _reported(kind, m):
+    if kind == "voxel":
+        return {"hard": _plain(m.hard_constraints), "soft": _plain(m.soft_constraints)}
+    return _plain(m.constraints)
+
+
+def observe_fresh():
+    """Fresh models of every class, no constraint written: outputs and reported constraints."""
+    out = {}
+    for ot in OBJ_TYPES:
+        for wm in (False, True):
+            m = _new_object(ot, wm)
+            out[f"object/{ot}/{'mask' if wm else 'nomask'}"] = (_read(lambda: m.obj), _plain(m.constraints))
+    m = _new_probe()
+    out["probe"] = (_read(lambda: m.probe), _plain(m.constraints))
+    m = _new_voxel()
+    out["voxel"] = (_read(lambda: m.obj), {"hard": _plain(m.hard_constraints), "soft": _plain(m.soft_constraints)})
+    return out
+
+
+def admissible_under_defaults(name, arr):
+    """Admissibility clauses of the property, switched by the start-up defaults. Returns a message or None."""
+    if isinstance(arr, str):
+        return f"reading it {arr}"
+    d = _SNAP["fresh"]["object"]
+    if name.startswith("object/"):
+        ot = name.split("/")[1]
+        if d.get("identical_slices"):
+            return None if np.array_equal(arr, np.broadcast_to(arr[:1], arr.shape)) else "slices differ"
+        if ot == "complex" and float(np.abs(arr).max()) > 1 + TOL_AMP:
+            return f"max |obj| = {np.abs(arr).max():.6g} > 1"
+        if ot == "pure_phase" and not d.get("apply_fov_mask") and float(np.abs(np.abs(arr) - 1).max()) > TOL_AMP:
+            return f"|obj| deviates from 1 by {np.abs(np.abs(arr) - 1).max():.3g}"
+        if ot == "potential" and d.get("positivity") and float(arr.min()) < 0:
+            return f"min value {arr.min():.6g} < 0 under the default positivity"
+    if name == "probe" and _SNAP["fresh"]["probe"].get("orthogonalize_probe"):
+        Q = arr.reshape(arr.shape[0], -1).astype(np.complex128)
+        G = Q @ Q.conj().T
+        ints = np.real(np.diag(G))
+        if float(np.abs(G - np.diag(np.diag(G))).max()) > TOL_GRAM * ints.max():
+            return f"modes not orthogonal (off-diagonal {np.abs(G - np.diag(np.diag(G))).max() / ints.max():.3g} of the largest intensity)"
+        if float((ints[1:] - ints[:-1]).max()) > TOL_INT * ints.max():
+            return f"mode intensities not descending: {ints.round(4).tolist()}"
+    if name == "voxel" and _SNAP["fresh"]["voxel"]["hard"].get("positivity") and float(arr.min()) < 0:
+        return f"min value {arr.min():.6g} < 0"
+    return None
+
+
+def run_history(t, events, reference=None):
+    """Execute one history on the real classes. `reference` = observation of the empty history (computed if not given)."""
+    if _SNAP is None:
+        raise Broken("start-up snapshot of the default constraints is missing")
+    restore_defaults()
+    if reference is None:
+        reference = observe_fresh()
+        restore_defaults()
+    case = {"kind": "history", "events": [list(e) for e in events]}
+    where = "history " + " ; ".join("configure " + "/".join(str(x) for x in e) for e in events) + " ; then fresh models"
+    # models that exist before the events
+    pre = {"object": _new_object("potential", True), "probe": _new_probe(), "voxel": _new_voxel()}
+    pre_rep = {k: _reported(k, m) for k, m in pre.items()}
+    pre_out = {"object": _read(lambda: pre["object"].obj), "probe": _read(lambda: pre["probe"].probe), "voxel": _read(lambda: pre["voxel"].obj)}
+    configured = [apply_event(e) for e in events]
+    got = observe_fresh()
+    ndiff = 0
+    for name, (arr, rep) in got.items():
+        model = name.split("/")[0]
+        ref_arr, ref_rep = reference[name]
+        if rep != ref_rep or rep != (_SNAP["fresh"][model]):
+            ndiff += 1
+            changed = {k: v for k, v in (rep.items() if model != "voxel" else {**rep["hard"], **rep["soft"]}.items()) if (ref_rep if model != "voxel" else {**ref_rep["hard"], **ref_rep["soft"]}).get(k) != v}
+            t.fail({"relation": "instance_independent_of_other_instances", "model": model, "observed": "fresh_constraints"}, case, f"{where}: a fresh {name} model with no constraint written reports {changed} instead of the defaults")
+        if not _same(arr, ref_arr):
+            ndiff += 1
+            how = arr if isinstance(arr, str) else (f"differs from the no-event history in {int((arr != ref_arr).sum())} of {arr.size} values" if not isinstance(ref_arr, str) and arr.shape == ref_arr.shape else "differs in shape/kind")
+            t.fail({"relation": "instance_independent_of_other_instances", "model": model, "observed": "fresh_output"}, case, f"{where}: output of a fresh {name} model {how}")
+        msg = admissible_under_defaults(name, arr)
+        if msg is not None and not (isinstance(arr, str) and isinstance(ref_arr, str)):
+            t.fail({"relation": "fresh_instance_admissible_under_defaults", "model": model}, case, f"{where}: fresh {name} model, default constraints: {msg}")
+    for k, m in pre.items():
+        if _reported(k, m) != pre_rep[k]:
+            ndiff += 1
+            t.fail({"relation": "instance_independent_of_other_instances", "model": k, "observed": "preexisting_constraints"}, case, f"{where}: a {k} model created before the events now reports {_reported(k, m)} instead of {pre_rep[k]}")
+    post = {"object": _read(lambda: pre["object"].obj), "probe": _read(lambda: pre["probe"].probe), "voxel": _read(lambda: pre["voxel"].obj)}
+    for k in pre:
+        if not _same(post[k], pre_out[k]):
+            ndiff += 1
+            t.fail({"relation": "instance_independent_of_other_instances", "model": k, "observed": "preexisting_output"}, case, f"{where}: the output of a {k} model created before the events changed")
+    for (kind, m, want), e in zip(configured, events):
+        if _reported(kind, m) != want:
+            ndiff += 1
+            t.fail({"relation": "instance_independent_of_other_instances", "model": kind, "observed": "configured_instance_constraints"}, case, f"{where}: the model configured by {e} reports {_reported(kind, m)} instead of {want}")
+    cl = _classes()
+    for model, attr in DEFAULT_ATTRS:
+        want = _SNAP["class"][model + "." + attr]
+        d = getattr(cl[model], attr, None)
+        if want is None or d is None:
+            t.extra["seam_missing_" + attr] += 1
+        elif dict(d) != want:
+            ndiff += 1
+            changed = {k: v for k, v in dict(d).items() if want.get(k, "<absent>") != v}
+            t.fail({"relation": "class_defaults_unchanged", "model": model, "attr": attr}, case, f"{where}: class-level {cl[model].__name__}.{attr} changed: {changed}")
+    restore_defaults()
+    t.case(key=case, nontrivial=len(events) > 0, outcome=[len(events), ndiff])
+    return reference
+
+
+def w_history(item, seed=0, events=None, depth=2):
+    """item = index of the first event (or -1 for the empty history); enumerates every continuation up to `depth` events."""
+    t = Tally()
+    ref = run_history(t, [])
+    if item < 0:
+        return t
+    first = events[item]
+    run_history(t, [first], ref)
+    for tail in itertools.product(events, repeat=depth - 1):
+        for n in range(1, depth):
+            if n < depth - 1 and tail[n:] != tuple(events[:1]) * (depth - 1 - n):
+                continue  # shorter histories are enumerated once, not once per padding
+            run_history(t, [first, *tail[:n]], ref)
+    t.sample({"kind": "history", "first_event": first, "depth": depth, "events_in_alphabet": len(events)}, cap=2)
+    return t
+
+
 # ----------------------------------------------------------------------------- driver
 def run(ctx):
     warnings.simplefilter("ignore")
     q = ctx.quick
+    snap = snapshot_defaults()  # before anything writes a constraint in this process
     ctx.assume(
         "the raw-parameter alphabet (magnitudes x phase grid in one tensor, one tensor per magnitude, constant tensors, seeded tensors) stands for 'any raw tensor'",
         "identical_slices with more than one slice is only required to tie the slices (quantifier); no amplitude or idempotence claim there",
@@ -459,7 +743,10 @@ def run(ctx):
         "and on slice tying only; what a second application does to the values (fractional-mask rescaling, baseline drift) is counted in the evidence (count_observed_*), never failed",
         "apply_fov_mask=True, or fix_potential_baseline=True on a potential object read through the obj property, with no mask set raises (usage error) and is not a lattice point; "
         "the same flags are judged through apply_hard_constraints(mask=None)",
-        "smoothing filters (gaussian_sigma, q_lowpass, q_highpass) stay at their defaults (off), as the quantifier states",
+        "smoothing filters (gaussian_sigma, q_lowpass, q_highpass) stay at their defaults (off), as the quantifier states (gaussian_sigma appears only as an EVENT of the history part, where the oracle is differential)",
+        "histories: 'default' means the constraints a fresh model reported at start-up, before any event; histories are bounded at two (thorough: three) configure-events out of 42 "
+        "(3 object types x 5 keys, 3 probe keys, 3 tomography keys; each through the setter and through add_constraint); class-level default mappings are restored from a start-up deep copy "
+        "around every history so that a leak found in one history cannot poison the next",
         "float32 code: amplitude tolerance 5e-6, idempotence 1e-5 of the value scale, Gram tolerance 1e-4 of the largest mode intensity (float32 Gram-Schmidt at correlation 0.99 reaches 2e-6), intensity tolerances 1e-5",
     )
 
@@ -499,6 +786,20 @@ def run(ctx):
     mis = [1e-3, 1.0, 1e4]
     ctx.coverage["alphabet"]["weights"] = {"modes": Ms, "requested": wk, "mean_intensity": mis, "roi": [list(r) for r in rois], "source": ["array", "from_params"], "seeded_stacks_per_point": nseeded}
     ctx.pmap(w_weights, list(itertools.product(Ms, wk, mis, rois, ["array", "from_params"])), label="probe weights", seed=ctx.seed, nseeded=nseeded)
+    ev2 = history_events()
+    ctx.coverage["alphabet"]["histories"] = {
+        "events": ev2,
+        "depth_all_events": 2,
+        "depth_setter_route_events": 2 if q else 3,
+        "observation": "fresh models of every class (3 object types x mask set/unset, 3-mode probe, voxel volume), models created before the events, the configured models, class-level default mappings",
+        "defaults_at_startup": snap["fresh"],
+    }
+    before = ctx.tally.n
+    ctx.pmap(w_history, list(range(-1, len(ev2))), chunk=1, label="histories (all ordered pairs of events)", seed=ctx.seed, events=ev2, depth=2)
+    if not q:
+        ev3 = history_events(["setter"])
+        ctx.pmap(w_history, list(range(len(ev3))), chunk=1, label="histories (all ordered triples, setter route)", seed=ctx.seed, events=ev3, depth=3)
+    ctx.coverage["histories"] = ctx.tally.n - before
     if len(ctx.tally.outcomes) < 50:
         raise Broken("too few distinct outcomes: the lattice did not vary")
     if len(ctx.tally.nontrivial) < 1000:
@@ -507,10 +808,13 @@ def run(ctx):
 
 def replay(ctx, case):
     warnings.simplefilter("ignore")
+    snapshot_defaults()
     t = Tally()
     k = case["kind"]
     seed = ctx.seed
-    if k == "object":
+    if k == "history":
+        run_history(t, [list(e) for e in case["events"]])
+    elif k == "object":
         judge_object(t, case["obj_type"], case["S"], tuple(case["hw"]), tuple(case["raw"]), {f: bool(v) for f, v in case["flags"].items()}, tuple(case["mask"]), case["path"], seed)
     elif k == "voxel":
         t = w_voxel((case["shape"], case["raw"]), seed=seed)
